@@ -24,6 +24,7 @@ import ZCV.Model.UrlPath
 import ZCV.Model.Timedelta
 import ZCV.Model.LogFormat
 import ZCV.CodecHost
+import ZCV.Model.History
 /-! Line-protocol driver: one request per line, one answer per line. Imports Spec + Model + Gen only. -/
 open ZCV ZCV.SExp ZCV.Codec ZCV.Cfg
 
@@ -116,6 +117,35 @@ def decEntry : SExp → Option Res2.Entry
   | .list [.atom "schemaurl", r] => (getNat? r).map .schemaURL
   | .list [.atom "schemafile", r] => (getNat? r).map .schemaFile
   | _ => none
+
+/-- one load of a history: (url (lines…) (overrides…)) -/
+def decLoadReq : SExp → Option LoadReq
+  | .list [url, .list lines, .list ovs] => do
+    let ls ← lines.mapM getStr?
+    let ov ← decOverrides ovs
+    pure { url := optStr url, lines := ls, specs := ov }
+  | _ => none
+
+def encStop (x : Stop) : SExp :=
+  .list [.list (x.regs.map fun (c, a) => .list [.str c, .str a]), ofStrs x.imports, ofOpt .str x.broken]
+
+/-- (histapp schema pkgs resources resolve env ((url (lines…) (overrides…)) …)) → one entry per load, in order:
+    (outcome application-schema-after (addsubtype-calls components-read component-broken-off)) with outcome as for `load`
+    (without the abstract tables) and the schema as `encSchema` writes it: `runHistoryApp` / `historySchemas` / `historyStops`
+    of ZCV/Model/History.lean -/
+def histappOp (sch : SExp) (pkgs res rsv env hist : List SExp) : SExp :=
+  match decSchema sch, decPkgs pkgs, decResources res, decResolve rsv, hist.mapM decLoadReq with
+  | some sc, some pk, some rs, some rv, some hs =>
+    let e : Env := { res := rs, resolve := rv, getenv := decEnv env }
+    let outs := (runHistoryApp stockConv e pk sc hs).1
+    let schemas := historySchemas stockConv e pk sc hs
+    let stops := historyStops stockConv e pk sc hs
+    .list (((outs.zip schemas).zip stops).map fun ((o, s'), x) =>
+      .list [(match o with
+              | .ok r => .list [.atom "ok", encVal r.value, .list (r.handlers.map fun (h, v) => .list [.str h, encVal v])]
+              | .error f => encFail f),
+             encSchema s', encStop x])
+  | _, _, _, _, _ => .list [.atom "bad-request", .atom "histapp"]
 
 structure DState where
   defs : List SExp := []
@@ -322,6 +352,8 @@ def handle (st : DState) : SExp → DState × SExp
                 | .error .keyError => .atom "KeyError" | .error .indexError => .atom "IndexError"
                 | .error .attributeError => .atom "AttributeError" | .error .overflowError => .atom "OverflowError"
                 | .error .unmodelled => .atom "unmodelled"])
+  | .list [.atom "histapp", sch, .list pkgs, .list res, .list rsv, .list env, .list hist] =>
+    (st, histappOp sch pkgs res rsv env hist)
   | .list [.atom "ping"] => (st, .atom "pong")
   -- host-parameterised datatypes (ZCV/CodecHost.lean): hostdt, dirname, memolocale, memoseq
   | other => (st, match CodecHost.handle other with | some a => a | none => .list [.atom "bad-request"])
